@@ -1029,7 +1029,7 @@ class DirectoryContentsTask : public Task {
       if (llvm::sys::fs::is_symlink_file(*it->status())) {
         SmallString<256> resolvedPath;
         if (!llvm::sys::fs::real_path(it->path(), resolvedPath)) {
-          if (path.startswith(resolvedPath)) {
+          if (pathIsPrefixedByPath(path.str(), resolvedPath.str().str())) {
             continue;
           }
         }
